@@ -156,6 +156,31 @@ fn main() {
                         std::hint::black_box(d.len());
                         gen(&g)
                     }
+                    Some(m @ ("settings_reused" | "settings_cloned" | "settings_twice")) => {
+                        // the SETTINGS value has a history: it generated code for another grammar with other derives
+                        // first, then its fields were set to what this run asks for (equal content, built differently)
+                        let mut used = CodegenSettings::default();
+                        if let Some(c) = &o.ctx {
+                            used.set_user_context_type(c);
+                            if m == "settings_twice" {
+                                used.set_user_context_type(c);
+                            }
+                        }
+                        used.derives = vec!["Debug".into(), "Clone".into(), "PartialEq".into(), "Eq".into(), "Hash".into(), "Default".into()];
+                        if used.derives == settings.derives {
+                            used.derives.truncate(2);
+                        }
+                        let tiny = Grammar::from_str("@export\nTiny = a:Leaf;\n@memoize\nLeaf = 'a';\n").expect("tiny grammar");
+                        let _ = tiny.generate_code(&used);
+                        let target = settings.derives.clone();
+                        if m == "settings_cloned" {
+                            let fresh = CodegenSettings { derives: target, ..used.clone() };
+                            g.generate_code(&fresh).map_err(|e| format!("codegen error: {e:?}"))
+                        } else {
+                            used.derives = target;
+                            g.generate_code(&used).map_err(|e| format!("codegen error: {e:?}"))
+                        }
+                    }
                     Some(other) => Err(format!("unknown --again mode {other}")),
                 }
             });
